@@ -4,7 +4,7 @@
    every byte the fancy parser dispatches on.  The parse of the escaped string and the search
    behaviour are established on the parser model by the T1 tie and the enumeration. *)
 From FR Require Import Base Utf8 Ast Analyze Escape Parse.
-From FR Require Import Utf8Facts EscapeParse.
+From FR Require Import Utf8Facts EscapeParse Sem EscapeSem.
 From FR.Generated Require Consts.
 From Coq Require Import Lia.
 
@@ -55,6 +55,43 @@ Theorem C17_parse_escape : forall s, valid_text s ->
              parse (fst (escape s)) = POk (finish (map lit cs), pst0).
 Proof. exact parse_escape_is_literals. Qed.
 
+(* what that tree matches under the reference semantics: at a position, exactly the bytes of s,
+   consuming |s| bytes and touching no capture slot *)
+Theorem C17_lits_match : forall cx fuel cs g ix caps, (cs = [] -> ix <= length (c_text cx)) ->
+  sem cx (finish (map lit cs)) fuel g (ix, caps) =
+  if lit_at (c_text cx) ix (concat cs) then [(ix + length (concat cs), caps)] else [].
+Proof. exact sem_lits. Qed.
+
+(* escape(s) used as a pattern is str::find: on valid UTF-8 text, from a character-boundary
+   offset, the reference search for the parse of escape(s) reports the FIRST byte position at
+   which the text contains s, with group 0 exactly that occurrence, and nothing iff there is none *)
+Theorem C17_escape_is_find : forall cs0 cx s, valid_chars cs0 -> c_text cx = concat cs0 ->
+  valid_text s -> s <> [] -> bnd cs0 (c_pos cx) ->
+  exists e st, parse (fst (escape s)) = POk (e, st) /\
+  match search_list cx e (S (length (c_text cx))) with
+  | Some caps => exists j, caps = [V j; V (j + length s)] /\ c_pos cx <= j /\ lit_at (c_text cx) j s = true /\
+                           forall j', c_pos cx <= j' < j -> lit_at (c_text cx) j' s = false
+  | None => forall j', c_pos cx <= j' -> lit_at (c_text cx) j' s = false
+  end.
+Proof. intros cs0 cx s W Ht. exact (escape_is_find cs0 W cx Ht s). Qed.
+
+(* non-vacuity: escape("a.") searched in "xa.a." from offset 0 finds (1,3) *)
+Example C17_find_ex :
+  let cx := {| c_text := [120; 97; 46; 97; 46]; c_pos := 0; c_skipped := false |} in
+  match parse (fst (escape [97; 46])) with
+  | POk (e, _) => search_list cx e 6 = Some [V 1; V 3]
+  | _ => False
+  end.
+Proof. vm_compute. reflexivity. Qed.
+
+Check C17_escape_is_find : forall cs0 cx s, valid_chars cs0 -> c_text cx = concat cs0 ->
+  valid_text s -> s <> [] -> bnd cs0 (c_pos cx) ->
+  exists e st, parse (fst (escape s)) = POk (e, st) /\
+  match search_list cx e (S (length (c_text cx))) with
+  | Some caps => exists j, caps = [V j; V (j + length s)] /\ c_pos cx <= j /\ lit_at (c_text cx) j s = true /\
+                           forall j', c_pos cx <= j' < j -> lit_at (c_text cx) j' s = false
+  | None => forall j', c_pos cx <= j' -> lit_at (c_text cx) j' s = false
+  end.
 Check C17_quoted_shape : forall s, unquote (length (push_quoted s)) (push_quoted s) = s.
 
 (* on the parser model: escape("a|b.") parses to the chain of literals, and a host keeps it *)
@@ -69,3 +106,6 @@ Print Assumptions C17_escape_borrow.
 Print Assumptions C17_quoted_shape.
 Print Assumptions C17_specials_cover_parser.
 Print Assumptions C17_parse_escape.
+
+Print Assumptions C17_lits_match.
+Print Assumptions C17_escape_is_find.
